@@ -2,7 +2,7 @@
 import looplib as L
 from vlib import Failure, finish, hexs
 
-COQ_FILES = L.LOOP_COQ_FILES + L.REFINE_COQ_FILES
+COQ_FILES = L.LOOP_COQ_FILES + L.REFINE_COQ_FILES + L.CANCEL_COQ_FILES
 
 
 def N(name):
@@ -81,7 +81,7 @@ def gen(ctx):
         items.append((L.Sched(labels=["D0", "S*"] + [N(x) for x in nm[:1]] + ["D7", "w", "D0", "t200"], note="write fault while the idle reply is half delivered"), nm[:1]))
     # sessions inside the fragment of the refinement theorems (c04_exec_events)
     for _ in range(40 if ctx.tier == "quick" else 800):
-        labels, info, nreq = L.gen_fragment_session(rng, rng.choice([6, 15, 40, 80]))
+        labels, info, nreq = L.gen_fragment_session(rng, rng.choice([6, 15, 40, 80]), cancels=rng.random() < 0.4)
         items.append((L.Sched(labels=labels + L.flush(nreq), note="fragment session"), list(info["notified"])))
     return items
 
